@@ -7,7 +7,8 @@ chunks) and loader, run in a scratch directory under $TMPDIR, against the compil
 the canonicalised metadata json, the directory listing with independently decompressed contents, and the
 loaded chunks must be identical strings.  Law-abiding streams over 4 dtypes x 4 compressors x rechunk
 on/off (tiny targets) x serial / thread-pool saving and loading, all chunkings of tiny runs, super-run
-chunks with subruns, a malformed stream (gaps, out-of-order, mixed types / runs, target 0, invalid
+chunks with subruns (incl. zero-duration chunks of a sub-run: regression corpus of the fixed D31), epoch-scale
+replicas (every time + 1.7e18 ns), a malformed stream (gaps, out-of-order, mixed types / runs, target 0, invalid
 annotations) and tampered directories (wrong n, missing file, missing filename, swapped files, ...) for
 the rejecting branches of the loader.
 Oracle: the wording of the property evaluated on the real objects: raw bytes of the concatenated rows,
@@ -40,13 +41,16 @@ TRUSTED = [
     "modelled not verified: the four codecs (identity on rows in the model; the harness decompresses every file independently "
     "with the one-shot library functions and compares bytes), np.frombuffer, dtype.descr <-> literal_eval, json round trip of ints",
     "the real file system is used as is (no faults: that is C04); directory listing compared as a sorted name list",
-    "thread-pool saving/loading is run with a real ThreadPoolExecutor (OS scheduling, not enumerated); the model is the serial protocol",
+    "thread-pool saving/loading is run with a real ThreadPoolExecutor (OS scheduling, not enumerated); the model completes the pending "
+    "writes in an arbitrary permutation derived from the case (theorem: the result does not depend on it) and resolves futures in chunk order",
 ]
 ASSUMPTIONS = [
     "rows are identified by an opaque id; bit-identity of all other bytes is checked by the oracle on the real arrays (4 dtypes: "
     "endtime, dt*length, array-valued + titles, untitled with float/bool/2-d fields)",
     "target_size_mb / chunk_target_size_mb are mapped monotonically to a target row count",
-    "nbytes and filesize are not in the model; the oracle checks them against n*itemsize and the real file sizes",
+    "nbytes (= n*itemsize) and the presence of filesize are in the model and in the compared line; the VALUE of filesize is an "
+    "uninterpreted positive function of the rows (opaque blobSize), compared with the real file size by the oracle only",
+    "target sizes are given in MB worth rows + frac rows (frac in {.03,.25,.5,.97}); strax must floor them to the row count sent to the driver",
 ]
 
 COMPRESSORS = ["blosc", "zstd", "lz4", "bz2"]
